@@ -12,6 +12,7 @@ CONSTANTS
   LogV = {1, 2}
   RefV = {1}
   SuiV = {1, 2}
+  StageFolds = FALSE
   MaxOps = 14
   MaxDepth = 4
   MaxCommits = 3
